@@ -66,5 +66,24 @@ fn verif_witness() {
         cases += 1;
         if !(b0 == b1 && b1 == b2 && b2 == b3) { vw_report(format!("lsh_bucket(dim {dim}, table {table}, {h} hyperplanes) changed with the cache state: {b0} / after clear {b1} / after eviction {b2} / after resize {b3}")); }
     } } }
+    // history independence across tables / dimensions / hyperplane counts whose cache keys could collide
+    // (large and negative table indices, indices congruent modulo 2^32, dimensions and bit counts 256 apart)
+    let tables: [i64; 8] = [0, 5, 5 + (1i64 << 32), 1i64 << 40, -1, 4_294_967_295, i64::MIN, i64::MAX];
+    let dims: [usize; 3] = [3, 259, 16];
+    let hs: [usize; 3] = [8, 32, 61];
+    let mut configs: Vec<(Vec<f32>, i64, usize)> = Vec::new();
+    for &t in &tables { configs.push(((0..16).map(|i| (i as f32) - 7.5).collect(), t, 32)); }
+    for &d in &dims { configs.push(((0..d).map(|i| ((i * 7 % 13) as f32) - 6.0).collect(), 5, 8)); }
+    for &h in &hs { configs.push(((0..16).map(|i| (i as f32) - 7.5).collect(), 9, h)); }
+    for (va, ta, ha) in &configs { for (vb, tb, hb) in &configs {
+        if (ta, ha, va.len()) == (tb, hb, vb.len()) { continue; }
+        clear_lsh_cache();
+        let fresh = lsh_bucket(vb, *tb, *hb);
+        clear_lsh_cache();
+        let _ = lsh_bucket(va, *ta, *ha);
+        let after = lsh_bucket(vb, *tb, *hb);
+        cases += 1;
+        if fresh != after { vw_report(format!("lsh_bucket(dim {}, table {}, {} hyperplanes) = {} on a fresh cache but {} after computing lsh_bucket(dim {}, table {}, {} hyperplanes)", vb.len(), tb, hb, fresh, after, va.len(), ta, ha)); }
+    } }
     vw_finish(cases);
 }
